@@ -204,16 +204,16 @@ class Processor(ABC):
                 new_target, persisted = self._process_recursive(target, materialize_as=name)
                 if new_target is not target:
                     result = new_target.materialized(name=name)
-                    if result.payload is not None:
+                    if _unwrapped(result).payload is not None:
                         # This operation has been simplified away
                         # (perhaps it's now a materialization of a
                         # leaf).
-                        original.attach_payload(result.payload)
+                        original.attach_payload(_unwrapped(result).payload)
                         return result, True
                 else:
                     result = original
                 if persisted:
-                    payload = new_target.payload
+                    payload = _unwrapped(new_target).payload
                 elif original.is_join_identity:
                     payload = target.engine.get_join_identity_payload()
                 elif original.max_rows == 0:
@@ -225,7 +225,7 @@ class Processor(ABC):
                 # original relation tree is processed.
                 original.attach_payload(payload)
                 if result is not original:
-                    result.attach_payload(payload)
+                    _unwrapped(result).attach_payload(payload)
                 return result, True
             case MarkerRelation(target=target):
                 new_target, persisted = self._process_recursive(target, materialize_as=materialize_as)
@@ -252,3 +252,17 @@ class Processor(ABC):
                     return operation.apply(new_lhs, new_rhs), False
                 return original, False
         raise AssertionError("Match should be exhaustive and all branches should return.")
+
+
+def _unwrapped(relation: Relation) -> Relation:
+    """Look through marker relations that an engine wraps around the relations
+    it returns (e.g. the SQL engine's ``Select``) to the relation that holds,
+    or should hold, the payload.
+    """
+    while (
+        relation.payload is None
+        and isinstance(relation, MarkerRelation)
+        and not isinstance(relation, (Materialization, Transfer))
+    ):
+        relation = relation.target
+    return relation
